@@ -321,6 +321,16 @@ def rule_u3b(ctx):
                 res.ok({"site": "mark at line %d" % t["sp"][1], "verdict": "index derives from the popped worklist entry"})
             else:
                 res.bad(Finding("U3b", fid, "gate marked as used without coming off the worklist", "a mark is set at an index that does not derive from a popped worklist entry: unreachable gates survive the sweep", t["sp"]))
+    # ... or a set of the marked indices: `used.insert(index)`
+    for b, t in body.calls():
+        if mir.last_seg(mir.callee(t) or "") == "insert" and "HashSet" in (mir.callee(t) or "") + str(t["func"].get("fty")) and len(t["args"]) == 2 and not body.blocks[b]["cleanup"]:
+            key = body.deep_sources(t["args"][1], 3)
+            root = {(r, tuple(p)) for (r, p) in body.trace_operand(t["args"][0])}
+            if any(r[0] == "call" and r[1] == pb for (r, p) in key):
+                marks |= root
+                res.ok({"site": "mark at line %d" % t["sp"][1], "verdict": "inserted index derives from the popped worklist entry"})
+            else:
+                res.bad(Finding("U3b", fid, "gate marked as used without coming off the worklist", "an index is inserted into the set of used gates that does not derive from a popped worklist entry: unreachable gates survive the sweep", t["sp"]))
     if not marks:
         raise AnchorMissing("U3b: no mark vector found in remove_unused_gates")
     # the survivors: pushes of self.gates[_] into a fresh vector
@@ -335,6 +345,10 @@ def rule_u3b(ctx):
             tt = body.term(x)
             if tt and tt["k"] == "switch" and tt["discr"]["k"] in ("copy", "move") and body.locals[tt["discr"]["place"]["l"]]["ty"] == "bool":
                 src = {(r, tuple(p[:-1]) if p and p[-1].startswith("[") else tuple(p)) for (r, p) in body.trace_operand(tt["discr"])}
+                # (membership in the set of marks: `used.contains(&w)`)
+                for (r, p) in body.trace(tt["discr"]["place"], through={}):
+                    if r[0] == "call" and mir.last_seg(str(r[2])) == "contains" and not p:
+                        src |= {(r2, tuple(p2)) for (r2, p2) in body.trace_operand(body.term(r[1])["args"][0])}
                 if src & marks:
                     zero_t = {tg for v, tg in tt["targets"] if v == 0}
                     edges = {(x, s_) for s_ in body.succs(x) if s_ not in zero_t}
